@@ -261,6 +261,13 @@ Section Semantics.
     (exists a, busy s a) /\ forall b, ~ can_move s b.
 End Semantics.
 
+(* a chain a -> p1 -> p2 -> ... of blocked callers *)
+Fixpoint wait_chain (s : cfg) (a : actor) (p : list actor) : Prop :=
+  match p with
+  | [] => True
+  | b :: q => waits s a b /\ wait_chain s b q
+  end.
+
 (* executable probes used in examples *)
 Definition frame_wait (s : cfg) (a : actor) : option actor :=
   match a_frame (s a) with Some f => f_wait f | None => None end.
